@@ -316,3 +316,42 @@ Proof.
   intros Hps H. destruct (closure ps Hps e v H) as [(_ & _ & Hok) Hw]. rewrite <- Hw.
   split; [apply where_sorted|]. intros i Hi. apply where_lt in Hi. unfold view_ok in Hok. lia.
 Qed.
+
+(* ---- the unique filter on a view: exactly one row per key, the first ---- *)
+Lemma unique_exactly_one v v' : view_ok v -> screen_wf (v_parent v) -> filter_unique_view v = Ok v' ->
+  let key := row_key (v_parent v) in
+  let W := np_where (v_sel v) in
+  let W' := np_where (v_sel v') in
+  v_tag v' = v_tag v /\ v_parent v' = v_parent v /\ view_ok v' /\
+  (forall i, In i W' <-> In i W /\ forall j, In j W -> j < i -> key j <> key i) /\
+  NoDup (map key W') /\
+  (forall i, In i W -> exists i', In i' W' /\ key i' = key i).
+Proof.
+  intros Hok Hwf H key W W'. destruct (filter_unique_view_inv _ _ Hok Hwf H) as (Ht & Hp & Hok' & Hw).
+  fold key W W' in Hw. split; [exact Ht|]. split; [exact Hp|]. split; [exact Hok'|]. split; [|split].
+  - intros i. rewrite Hw, In_keep_first by apply where_sorted. cbn [In]. tauto.
+  - rewrite Hw. apply keep_first_NoDup.
+  - intros i Hi. rewrite Hw. destruct (keep_first_covers key [] W i Hi) as [[]|Hex]. exact Hex.
+Qed.
+
+(* ---- all attributes of a view at once ---- *)
+Lemma view_attrs v (dr : row) : view_ok v -> screen_wf (v_parent v) ->
+  let p := v_parent v in
+  let idx := np_where (v_sel v) in
+  view_pids v = map (fun i => nth i (s_pids p) 0%Z) idx /\
+  view_sids v = map (fun i => nth i (s_sids p) 0%Z) idx /\
+  view_tids v = map (fun i => nth i (s_tids p) []) idx /\
+  view_rows v = map (fun i => nth i (s_rows p) dr) idx /\
+  view_sample_names v = map r_sample (view_rows v) /\
+  view_plate_names v = map r_plate (view_rows v) /\
+  view_treats v = map r_treats (view_rows v) /\
+  view_obs v = map r_obs (view_rows v) /\
+  view_mask v = map r_mask (view_rows v) /\
+  view_size v = length idx.
+Proof.
+  intros Hok (HS & HP & HR & _) p idx. unfold view_ok in Hok. fold p in Hok, HS, HP, HR.
+  unfold view_pids, view_sids, view_tids, view_rows, view_sample_names, view_plate_names, view_treats, view_obs, view_mask.
+  fold p. rewrite !select_map.
+  repeat split; try (apply select_nth; unfold screen_size in *; congruence).
+  apply view_size_where. exact Hok.
+Qed.
